@@ -178,15 +178,38 @@ func (e *Env) fmtRouting(rule string) {
 			continue
 		}
 		operand := pn.Instr.(*ssa.BinOp).Y
-		// the first-byte test on the same operand in the same context
+		sy := e.symbolizer()
+		opS := sy.InCtx(pn.Ctx, operand).String()
+		// the test of the same path for being absolute: path[0] == '/', strings.HasPrefix(path, "/") or
+		// filepath.IsAbs(path) - in the same function or in a predicate helper
 		for _, in := range fi.g.Nodes {
-			ix, ok := in.Instr.(*ssa.Index)
-			if !ok || in.Ctx != pn.Ctx || ix.X != operand {
+			var absAV, relAV core.AV
+			switch {
+			case in.Kind == core.KAfter:
+				continue
+			case in.Instr != nil:
+				if ix, ok := in.Instr.(*ssa.Index); ok {
+					if k, isK := ix.Index.(*ssa.Const); !isK || k.Value == nil || k.Int64() != 0 || sy.InCtx(in.Ctx, ix.X).String() != opS {
+						continue
+					}
+					absAV, relAV = core.IntAV('/'), core.IntAV('a')
+					break
+				}
+				if in.IsCallTo("strings.HasPrefix") && sy.InCtx(in.Ctx, in.Call.Args[0]).String() == opS && sy.InCtx(in.Ctx, in.Call.Args[1]).String() == "\"/\"" {
+					absAV, relAV = core.BoolAV(true), core.BoolAV(false)
+					break
+				}
+				if in.IsCallTo("path/filepath.IsAbs", "path.IsAbs") && sy.InCtx(in.Ctx, in.Call.Args[0]).String() == opS {
+					absAV, relAV = core.BoolAV(true), core.BoolAV(false)
+					break
+				}
+				continue
+			default:
 				continue
 			}
 			n0++
-			abs := fi.g.Run(core.Scenario{Start: in, Result: core.IntAV('/')})
-			rel := fi.g.Run(core.Scenario{Start: in, Result: core.IntAV('a')})
+			abs := fi.g.Run(core.Scenario{Start: in, Result: absAV})
+			rel := fi.g.Run(core.Scenario{Start: in, Result: relAV})
 			isThis := func(m *core.Node) bool { return m == pn }
 			stop := func(m *core.Node) bool { return fi.isSubst(m) || m == in }
 			okA := abs.ReachesAvoiding(isThis, stop) == nil
